@@ -2814,13 +2814,20 @@ class AggregateBase(UnitsManaged, Saveable, OpenSystem):
                     # removed
 
 
-                # we get this in SITE BASIS
-                ham = HH.data
+                # we get this in SITE BASIS: if we are inside a basis
+                # context, the data are transformed back to the site basis
+                # and the resulting state into the current basis
+                SS = numpy.eye(Ndim)
+                for ZZ in Manager().basis_transformations[1:]:
+                    SS = numpy.dot(SS, ZZ)
+                S1 = numpy.linalg.inv(SS)
+                ham = numpy.dot(SS, numpy.dot(HH.data, S1))
 
                 rho0 = self._thermal_population(temperature,
                                                 subtract=re,
                                                 relaxation_hamiltonian=ham,
                                                 start=start)
+                rho0 = numpy.dot(S1, numpy.dot(rho0, SS))
 
             elif relaxation_theory_limit == "weak_coupling":
 
